@@ -19,16 +19,18 @@
 
 2. MembersGlue.lean (from crates/klukai-agent/src/agent/handlers.rs `handle_notifications` and
    crates/klukai-types/src/actor.rs `impl Identity for Actor`)
-   * `notifTable : List (String × String × String)`: for every arm `OwnedNotification::<Variant>…` of the
-     `match notification` the variant, the `Members` method called on `agent.members().write()` in that
-     arm ("-" when the arm does not touch the member table) and the argument expression of that call
-     ("-" when none).  An arm that takes `members().write()` but calls something other than
-     `add_member` / `remove_member`, that calls more than one of them, a wildcard arm or a `match` that
-     is not over `notification` raises.
-   * `winAddrConflict : String`: the comparison operator of `win_addr_conflict`
-     (`self.ts <op> adversary.ts`), `renewKeeps : List String`: the fields `renew` copies from `self`
-     (`<f>: self.<f>`), `renewFreshTs : Bool`: `ts` is built from `duration_since_epoch()`,
-     `renewIsSome : Bool`: the result is `Some(Self { … })`.
+   * `notifTable : List (NotifKind × MemberCall)`: for every arm `OwnedNotification::<Variant>(…)` of the
+     single `match notification` inside `while let Some(notification) = notification_rx.recv().await`,
+     the variant and what the arm does to the member table: `addMember` / `removeMember` when the arm's
+     FIRST statement is `let r = agent.members().write().add_member(&payload)` / `…remove_member(&payload)`
+     with `payload` the arm's single binding, `nothing` when the arm never takes `members().write()`.
+     Raises on: a wildcard / guarded / or-pattern arm, a write lock taken anywhere else in the arm or
+     more than once, another `Members` method, another argument, the member table reached before or
+     after the `match`.  (What `read()` is used for - the cluster size sent to foca - is not modelled.)
+   * `winCmp : Cmp`: the operator of `win_addr_conflict` (`self.ts <op> adversary.ts`).  `renew` must be
+     `Some(Self { id: self.id, addr: self.addr, ts: NTP64::from(duration_since_epoch()).into(),
+     cluster_id: self.cluster_id })` with `duration_since_epoch()` reading `SystemTime::now()`; anything
+     else raises (the model's `renew` is written for exactly this).
 """
 import os, re
 
@@ -169,6 +171,136 @@ end Corro.Gen.MembersConsts
 """
 
 
+# ------------------------------------------------------------------ the glue: handlers.rs, actor.rs
+
+KINDS = {"MemberUp": "memberUp", "MemberDown": "memberDown", "Rename": "rename", "Active": "active",
+         "Idle": "idle", "Defunct": "defunct", "Rejoin": "rejoin"}
+CALLS = {"add_member": "addMember", "remove_member": "removeMember"}
+CMPS = {"<": "lt", "<=": "le", ">": "gt", ">=": "ge", "==": "eq", "!=": "ne"}
+
+
+def match_arms(block, what):
+    """[(pattern, body)] of the arms of a `{ pat => body, … }` match block (comments already stripped)"""
+    inner = block[1:-1]
+    arms, i, n = [], 0, len(inner)
+    while True:
+        while i < n and inner[i] in " \t\r\n,":
+            i += 1
+        if i >= n:
+            return arms
+        j = inner.find("=>", i)
+        if j < 0:
+            raise ExtractError(f"{what}: arm without `=>` near `{inner[i:i + 40]}`")
+        pat = inner[i:j].strip()
+        k = j + 2
+        while k < n and inner[k] in " \t\r\n":
+            k += 1
+        if k < n and inner[k] == "{":
+            body = block_at(inner, k, what + " arm " + pat)
+            i = k + len(body)
+        else:
+            depth, e = 0, k
+            while e < n and not (inner[e] == "," and depth == 0):
+                depth += inner[e] in "([{"
+                depth -= inner[e] in ")]}"
+                e += 1
+            body = inner[k:e]
+            i = e
+        arms.append((pat, body))
+
+
+def glue(repo):
+    src = strip_comments(open(os.path.join(repo, HANDLERS)).read())
+    hn = fn_body(src, "handle_notifications", HANDLERS)
+    need(hn, r"while\s+let\s+Some\(\s*notification\s*\)\s*=\s*notification_rx\.recv\(\)\.await\s*\{",
+         "`while let Some(notification) = notification_rx.recv().await {` (every notification, in order)", HANDLERS)
+    ms = list(re.finditer(r"\bmatch\s+notification\s*\{", hn))
+    if len(ms) != 1:
+        raise ExtractError(f"{HANDLERS}: handle_notifications: expected exactly one `match notification {{`, found {len(ms)}")
+    before = hn[:ms[0].start()]
+    if re.search(r"members\(\)|\bcontinue\b|\bbreak\b|\breturn\b", before):
+        raise ExtractError(f"{HANDLERS}: handle_notifications touches the member table or leaves the loop before `match notification`")
+    mblock = block_at(hn, ms[0].end() - 1, "match notification")
+    after = hn[ms[0].end() - 1 + len(mblock):]
+    if re.search(r"members\(\)", after):
+        raise ExtractError(f"{HANDLERS}: handle_notifications touches the member table after `match notification`")
+    table = []
+    for pat, body in match_arms(mblock, "match notification"):
+        m = re.fullmatch(r"OwnedNotification::(\w+)\s*(?:\(\s*([^()]*?)\s*\))?", pat)
+        if not m:
+            raise ExtractError(f"{HANDLERS}: arm pattern `{pat}` is not a plain `OwnedNotification::<Variant>(bindings)` "
+                               "(wildcard, guard, `|` or nested pattern: Corro.Members.callOf models first-arm-by-variant only)")
+        variant, binds = m.group(1), [b.strip() for b in (m.group(2) or "").split(",") if b.strip()]
+        writes = len(re.findall(r"members\(\)\s*\.\s*write\(\)", body))
+        call = "nothing"
+        if writes:
+            # the arm's FIRST statement is `let x = [{] agent.members().write().<call>(&<payload>) [}];`
+            lead = re.match(r"\{\s*let\s+\w+\s*=\s*\{?\s*agent\.members\(\)\s*\.write\(\)\s*\.(\w+)\(\s*&\s*(\w+)\s*\)\s*\}?\s*;", body)
+            if not lead or writes != 1:
+                raise ExtractError(f"{HANDLERS}: arm `{pat}` takes `members().write()` {writes}× but not as one leading "
+                                   "`let r = agent.members().write().<add_member|remove_member>(&payload);`")
+            fn, arg = lead.group(1), lead.group(2)
+            if fn not in CALLS:
+                raise ExtractError(f"{HANDLERS}: arm `{pat}` calls `Members::{fn}` (neither add_member nor remove_member)")
+            if binds != [arg]:
+                raise ExtractError(f"{HANDLERS}: arm `{pat}` passes `&{arg}`, which is not its single payload binding {binds}")
+            call = CALLS[fn]
+        if re.search(r"\bmembers\b", re.sub(r"members\(\)\s*\.\s*(read|write)\(\)", "", body)):
+            raise ExtractError(f"{HANDLERS}: arm `{pat}` reaches the member table other than through members().read()/write()")
+        table.append((KINDS.get(variant, "other"), call, variant))
+    if not table:
+        raise ExtractError(f"{HANDLERS}: `match notification` has no arms")
+
+    asrc = strip_comments(open(os.path.join(repo, ACTOR)).read())
+    im = re.search(r"\bimpl\s+Identity\s+for\s+Actor\b", asrc)
+    if not im:
+        raise ExtractError(f"{ACTOR}: `impl Identity for Actor` not found")
+    ib = block_at(asrc, im.end(), "impl Identity for Actor")
+    wb = fn_body(ib, "win_addr_conflict", ACTOR)
+    m = re.fullmatch(r"\{\s*self\.ts\s*(<=|>=|==|!=|<|>)\s*adversary\.ts\s*\}", wb)
+    if not m:
+        raise ExtractError(f"{ACTOR}: win_addr_conflict is not `self.ts <op> adversary.ts`")
+    cmp_ = CMPS[m.group(1)]
+    rb = fn_body(ib, "renew", ACTOR)
+    m = re.fullmatch(r"\{\s*Some\(\s*Self\s*\{(.*)\}\s*\)\s*\}", rb, re.S)
+    if not m:
+        raise ExtractError(f"{ACTOR}: renew is not `Some(Self {{ … }})`")
+    fields = {}
+    for f in [x.strip() for x in m.group(1).split(",") if x.strip()]:
+        k, _, v = f.partition(":")
+        fields[k.strip()] = re.sub(r"\s+", "", v)
+    want = {"id": "self.id", "addr": "self.addr", "cluster_id": "self.cluster_id",
+            "ts": "NTP64::from(duration_since_epoch()).into()"}
+    if fields != want:
+        raise ExtractError(f"{ACTOR}: renew builds {fields}, the model's `renew` is {want}")
+    need(asrc, r"fn\s+duration_since_epoch\(\)\s*->\s*Duration\s*\{\s*SystemTime::now\(\)\s*\.duration_since\(\s*SystemTime::UNIX_EPOCH\s*\)",
+         "`duration_since_epoch()` = `SystemTime::now().duration_since(UNIX_EPOCH)`", ACTOR)
+    return table, cmp_
+
+
+def glue_text(table, cmp_):
+    rows = ",\n   ".join(f"(.{k}, .{c})" for k, c, _ in table)
+    names = ", ".join(v for _, _, v in table)
+    return f"""import Corro.Model.Members
+/- GENERATED by tools/extract_c18.py from /repo/{HANDLERS} (`handle_notifications`) and
+   /repo/{ACTOR} (`impl Identity for Actor`).  Do not edit: regenerated at the start of every check.
+   Arms of `match notification`, in source order: {names}. -/
+namespace Corro.Gen.MembersGlue
+open Corro.Members
+
+/-- per arm of `match notification`: the variant and what the arm's leading statement does to
+`agent.members().write()` with the arm's payload (`nothing`: the arm never takes the write lock) -/
+def notifTable : List (NotifKind × MemberCall) :=
+  [{rows}]
+
+/-- `win_addr_conflict`: `self.ts <op> adversary.ts` -/
+def winCmp : Cmp := .{cmp_}
+
+end Corro.Gen.MembersGlue
+"""
+
+
 def extract(repo):
     buckets, cap = consts(repo)
-    return [("MembersConsts.lean", consts_text(buckets, cap))]
+    table, cmp_ = glue(repo)
+    return [("MembersConsts.lean", consts_text(buckets, cap)), ("MembersGlue.lean", glue_text(table, cmp_))]
